@@ -72,6 +72,9 @@ func genItems(t *rapid.T, label string, maxItems int, allowBad bool) []byte {
 			id = rapid.SampledFrom(stdIDs).Draw(t, label+"_std")
 		}
 		ln := rapid.IntRange(0, 12).Draw(t, label+"_len")
+		if rapid.IntRange(0, 15).Draw(t, label+"_longitem") == 0 {
+			ln = rapid.SampledFrom([]int{127, 128, 200, 253, 254, 255}).Draw(t, label+"_longlen")
+		}
 		if ls, ok := ref.ItemLengths[id]; ok {
 			ln = ls[rapid.IntRange(0, len(ls)-1).Draw(t, label+"_lsel")]
 			if allowBad && rapid.IntRange(0, 11).Draw(t, label+"_bad") == 0 {
